@@ -132,6 +132,33 @@ fn main() {
     std::panic::set_hook(Box::new(|_| {}));
 
     let mut programs: Vec<(Program, String)> = Vec::new();
+    let mut extra_probes: HashMap<String, Vec<Pat>> = HashMap::new();
+    // C01: long congruence chains that must be closed inside ONE rebuild (a chain of depth k needs
+    // about k passes): towers F^k(a), F^k(b) built first, then a single union of the leaves
+    if prop == "C01" && o.replay.is_none() {
+        for (n, k) in [7usize, 40, 130, 260].iter().enumerate() {
+            let decls = vec![
+                Decl { name: "K0".into(), kind: Kind::Ctor, args: vec![] },
+                Decl { name: "K1".into(), kind: Kind::Ctor, args: vec![] },
+                Decl { name: "F0".into(), kind: Kind::Ctor, args: vec![Sort::S] },
+            ];
+            let tower = |base: usize, h: usize| {
+                let mut t = Pat::App(base, vec![]);
+                for _ in 0..h {
+                    t = Pat::App(2, vec![t]);
+                }
+                t
+            };
+            let cmds = vec![
+                Cmd::Act(Action::Expr(tower(0, *k))),
+                Cmd::Act(Action::Expr(tower(1, *k))),
+                Cmd::Act(Action::Union(tower(0, 0), tower(1, 0))),
+            ];
+            let tag = format!("deep-chain k={k} #{n}");
+            extra_probes.insert(tag.clone(), vec![tower(0, *k), tower(1, *k), tower(0, *k / 2), tower(1, *k / 2), tower(0, 1), tower(1, 1)]);
+            programs.push((Program { decls, cmds }, tag));
+        }
+    }
     if let Some(path) = &o.replay {
         let txt = std::fs::read_to_string(path).expect("replay");
         let v: serde_json::Value = serde_json::from_str(&txt).expect("json");
@@ -146,14 +173,21 @@ fn main() {
         for ci in 0..ncases {
             let mut r = Rng::for_case(o.seed, ci as u64);
             let n = r.range(3, 14);
-            programs.push((Gen::new(&mut r, bias).program(n), format!("seed={} case={}", o.seed, ci)));
+            // C06 alternates rule-heavy sessions with sessions full of colliding lattice writes
+            let b = if prop == "C06" && ci % 2 == 1 { Bias::C05 } else { bias };
+            programs.push((Gen::new(&mut r, b).program(n), format!("seed={} case={}", o.seed, ci)));
         }
     }
 
     for (ci, (p, tag)) in programs.iter().enumerate() {
         let text = p.text();
         let fresh = distinct.insert(text.clone());
-        let probes = enumerate_probes(p, 3, 36, &[0, 1, 2]);
+        let mut probes = enumerate_probes(p, 3, 36, &[0, 1, 2]);
+        if let Some(ex) = extra_probes.get(tag) {
+            probes = ex.clone();
+            probes.push(Pat::App(0, vec![]));
+            probes.push(Pat::App(1, vec![]));
+        }
         // int probes: function / relation applications on small terms
         let mut iprobes: Vec<Pat> = Vec::new();
         for (f, d) in p.decls.iter().enumerate() {
@@ -196,6 +230,8 @@ fn main() {
         let mut did_union = false;
         let mut did_rebuild_merge = false;
         let mut writes: Vec<(usize, Pat, i64)> = Vec::new(); // top-level sets (C05 twin)
+        let mut nm_writes: Vec<(usize, Pat, i64)> = Vec::new(); // top-level sets on :no-merge functions
+        let mut prev_nm_rows: Vec<(usize, u32, i64)> = Vec::new(); // rows of :no-merge functions before the command
         let mut subsumed: Vec<(usize, V, String)> = Vec::new(); // top-level subsumes (C13 twin): (table, key, text)
         let mut failed_cmds = 0usize;
         let mut prev_sizes: Option<Vec<usize>> = None;
@@ -245,6 +281,11 @@ fn main() {
                     // a generated monotone command failed: nothing to compare with the model any more
                     model_ok = false;
                 }
+                // a command that fails at run time may have been partially applied (e.g. the union
+                // that creates a :no-merge conflict is performed before the error is raised): the
+                // history of "unions performed" is no longer known exactly, so the independent
+                // congruence-closure and merge-fold oracles stop here (the invariant twins go on)
+                rule_free = false;
             }
             if matches!(c, Cmd::Raw(_)) {
                 model_ok = false;
@@ -387,6 +428,55 @@ fn main() {
                 }
             }
             prev_sizes = Some(ob.sizes.clone());
+            // ---- C05 :no-merge twin: a command that makes two different STORED values meet on one
+            //      key (directly, or because a union makes their keys equal) must fail; it must
+            //      never succeed silently keeping either. Judged on the rows stored before the
+            //      command (not on the write history: a failed command may be partially applied).
+            {
+                if ok {
+                    let mut bad: Option<String> = None;
+                    'outer: for (i, (f1, k1, v1)) in prev_nm_rows.iter().enumerate() {
+                        for (f2, k2, v2) in prev_nm_rows.iter().skip(i + 1) {
+                            if f1 == f2 && v1 != v2 && canon_u32(&eg, *k1) == canon_u32(&eg, *k2) {
+                                bad = Some(format!(
+                                    "the keys of two rows of the :no-merge function {} holding different values ({v1} and {v2}) became equal",
+                                    p.decls[*f1].name
+                                ));
+                                break 'outer;
+                            }
+                        }
+                    }
+                    if let (None, Cmd::Act(Action::Set(f, args, Pat::Int(z)))) = (&bad, c) {
+                        if p.decls[*f].kind == Kind::Func(Merge::NoMerge) {
+                            if let Some(V::Id(key)) = Dump::eval(&d.index(), &args[0]) {
+                                for (f1, k1, v1) in prev_nm_rows.iter() {
+                                    if f1 == f && canon_u32(&eg, *k1) == key && v1 != z {
+                                        bad = Some(format!("the key already held {v1} and {z} was written to the :no-merge function {}", p.decls[*f].name));
+                                    }
+                                }
+                            }
+                        }
+                    }
+                    if let Some(msg) = bad {
+                        viols.push(Viol {
+                            what: format!("command {k} `{}` succeeded although {msg}: a value was silently kept", ctext.replace('\n', " ")),
+                            key: "C05-nomerge-silent".into(),
+                            program: text.clone(),
+                            at: k,
+                        });
+                    }
+                }
+                prev_nm_rows.clear();
+                for (f, decl) in p.decls.iter().enumerate() {
+                    if decl.kind == Kind::Func(Merge::NoMerge) {
+                        for r in &d.tables[f] {
+                            if let (V::Id(key), V::Int(v)) = (&r.args[0], &r.ret) {
+                                prev_nm_rows.push((f, *key, *v));
+                            }
+                        }
+                    }
+                }
+            }
             // ---- twins that need the command to have succeeded ----
             if ok {
                 match c {
@@ -406,8 +496,12 @@ fn main() {
                             let i = closure.add(a);
                             present.push(i);
                         }
-                        if let (Pat::Int(z), Kind::Func(_)) = (v, &p.decls[*f].kind) {
-                            writes.push((*f, args[0].clone(), *z));
+                        if let (Pat::Int(z), Kind::Func(m)) = (v, &p.decls[*f].kind) {
+                            if *m == Merge::NoMerge {
+                                nm_writes.push((*f, args[0].clone(), *z));
+                            } else {
+                                writes.push((*f, args[0].clone(), *z));
+                            }
                         }
                     }
                     Cmd::Act(Action::Subsume(f, args)) => {
@@ -522,6 +616,8 @@ fn main() {
                                     acc = Some(match (acc, &m) {
                                         (None, _) => *z,
                                         (Some(a), Merge::Min) => a.min(*z),
+                                        (Some(a), Merge::Or) => a | *z,
+                                        (Some(a), Merge::And) => a & *z,
                                         (Some(a), _) => a.max(*z),
                                     });
                                 }
